@@ -15,10 +15,13 @@ CONSTANTS OutKind, OutTid,   \* the channel we request data on: "pull" -> (S,P,O
           MaxReq,            \* bound on graphsync requests in total (<= 4)
           MaxPend,           \* bound on queued resume messages
           Ops,               \* operations to draw from
-          InPeers,           \* authenticated peers of incoming requests / updates / responses
-          ReqTids,           \* transfer ids carried by incoming requests (updates / responses use both)
+          InPeers,           \* authenticated peers of updates / responses / network errors
+          ReqPeers,          \* authenticated peers of incoming requests (each one adds two possible channels)
+          ReqTids,           \* transfer ids carried by incoming requests
+          UpdTids,           \* transfer ids carried by request updates / responses
           AllH,              \* BOOLEAN: every (handler result, handler message) pair, or three representative ones
           Exts, Slots, HRets, HMsgs, Ks, KNil, Ms, CRets, LastErrs, Stats,   \* KNil: OpenChannel without channel state (k = -1)
+          Pick,              \* BOOLEAN (simulation only): draw ONE random parameter tuple per step instead of enumerating all
           Record,            \* BOOLEAN: keep the script in hist
           Len0               \* behaviours of this length are printed (simulation), 0 = never
 
@@ -27,6 +30,7 @@ vars == <<st, stored, last, hist, done>>
 View == <<[st EXCEPT !.paused = {}], stored, done>>       \* nothing reads the paused set
 
 HPs == {hm \in HRets \X HMsgs : AllH \/ ((hm[1] = "err") = (hm[2] = "resp"))}
+HPL == {hm \in HPs : AllH \/ hm[1] # "pause"}      \* for callbacks on which a handler's ErrPause only selects a hook action
 
 C1 == IF OutKind = "pull" THEN Chid(Self, "P", OutTid) ELSE Chid("P", Self, OutTid)
 C2 == IF InKind = "pull" THEN Chid("P", Self, InTid) ELSE Chid(Self, "P", InTid)
@@ -49,23 +53,23 @@ ActsOf(op) ==
     [] op = "Consume" -> {[A0 EXCEPT !.op = op, !.r = r, !.st = e] : r \in PoolSet, e \in LastErrs}
     [] op = "OutReqHook" -> {[A0 EXCEPT !.op = op, !.p = "P", !.r = "rX", !.ext = x] : x \in {"none", "malformed"} \cap Exts}
     [] op = "InReq" -> {[A0 EXCEPT !.op = op, !.p = p, !.r = IF st.nreq < Len(Pool) THEN NextReq(st) ELSE "rX", !.ext = x, !.tid = t, !.hret = hm[1], !.hmsg = hm[2]] :
-                           p \in InPeers, x \in {"req", "resp"} \cap Exts, t \in ReqTids, hm \in HPs}
+                           p \in ReqPeers, x \in {"req", "resp"} \cap Exts, t \in ReqTids, hm \in HPs}
                        \cup {[A0 EXCEPT !.op = op, !.p = "P", !.r = "rX", !.ext = x] : x \in {"none", "malformed"} \cap Exts}
     [] op = "Processing" -> {[A0 EXCEPT !.op = op, !.p = "P", !.r = r, !.slot = x] : r \in Known, x \in {"in", "out"}}
-    [] op = "InBlock" -> {[A0 EXCEPT !.op = op, !.p = "P", !.r = r, !.wire = w, !.hret = h] : r \in Known, w \in {0, 5}, h \in HRets}
-    [] op = "OutBlock" -> {[A0 EXCEPT !.op = op, !.p = "P", !.r = r, !.wire = w, !.hret = hm[1], !.hmsg = hm[2]] : r \in Known, w \in {0, 5}, hm \in HPs}
+    [] op = "InBlock" -> {[A0 EXCEPT !.op = op, !.p = "P", !.r = r, !.wire = w, !.hret = h] : r \in Known, w \in {0, 5}, h \in {hm[1] : hm \in HPL}}
+    [] op = "OutBlock" -> {[A0 EXCEPT !.op = op, !.p = "P", !.r = r, !.wire = w, !.hret = hm[1], !.hmsg = hm[2]] : r \in Known, w \in {0, 5}, hm \in HPL}
     [] op = "BlockSent" -> {[A0 EXCEPT !.op = op, !.p = "P", !.r = r, !.wire = w] : r \in Known, w \in {0, 5}}
     [] op = "Completed" -> {[A0 EXCEPT !.op = op, !.p = "P", !.r = r, !.st = x] : r \in Known, x \in Stats}
     [] op = "ReqUpdated" -> {[A0 EXCEPT !.op = op, !.p = p, !.r = r, !.ext = x, !.tid = t, !.hret = hm[1], !.hmsg = hm[2]] :
-                               p \in InPeers, r \in Known, x \in Exts, t \in Tids, hm \in HPs}
+                               p \in InPeers, r \in Known, x \in Exts, t \in UpdTids, hm \in HPL}
     [] op = "InResp" -> {[A0 EXCEPT !.op = op, !.p = p, !.r = r, !.ext = x, !.tid = t, !.slot = sl, !.hret = hm[1], !.hmsg = hm[2]] :
-                               p \in InPeers, r \in Known, x \in Exts, t \in Tids, sl \in Slots, hm \in HPs}
+                               p \in InPeers, r \in Known, x \in Exts, t \in UpdTids, sl \in Slots, hm \in HPL}
     [] op \in {"ReqCancelled", "SendErr"} -> {[A0 EXCEPT !.op = op, !.p = "P", !.r = r] : r \in Known}
     [] op = "RecvErr" -> {[A0 EXCEPT !.op = op, !.p = p] : p \in InPeers}
 
 Do(a) ==
   /\ ~done /\ Enabled(st, a)
-  /\ (a.op \in {"Open", "InReq"} /\ a.r \in PoolSet \cup {""} => st.nreq < MaxReq)
+  /\ (a.op \in {"Open", "InReq"} /\ a.r \in PoolSet \cup {""} => st.nreq + (IF st.opn.active THEN 1 ELSE 0) < MaxReq)
   /\ (Len0 > 0 => Len(hist) < Len0)
   /\ LET e == Step(st, a) IN
        /\ st' = e.s
@@ -74,7 +78,9 @@ Do(a) ==
   /\ hist' = IF Record THEN Append(hist, a) ELSE hist
   /\ UNCHANGED done
 
-Act(op) == op \in Ops /\ \E a \in ActsOf(op) : Do(a)
+Act(op) == /\ op \in Ops
+           /\ IF Pick THEN ActsOf(op) # {} /\ (\E a \in {RandomElement(ActsOf(op))} : Do(a))
+              ELSE \E a \in ActsOf(op) : Do(a)
 
 Dump == /\ ~done /\ Len0 > 0 /\ Len(hist) = Len0
         /\ PrintT(<<"@@case", ToJson([c1 |-> C1, c2 |-> C2, steps |-> hist])>>)
